@@ -949,7 +949,12 @@ func (c *Ctx) rawBytes(prop string) {
 	// what a container holds, byte for byte, through the typed getters only
 	var dumpL func(l at.List) string
 	var dumpO func(o at.Object) string
-	dumpL = func(l at.List) string {
+	dumpL = func(l at.List) (res string) {
+		defer func() {
+			if r := recover(); r != nil {
+				res = fmt.Sprintf("<reading the list panics: %v>", r)
+			}
+		}()
 		var sb strings.Builder
 		sb.WriteByte('[')
 		for i := 0; i < l.Count(); i++ {
@@ -968,7 +973,12 @@ func (c *Ctx) rawBytes(prop string) {
 		sb.WriteByte(']')
 		return sb.String()
 	}
-	dumpO = func(o at.Object) string {
+	dumpO = func(o at.Object) (res string) {
+		defer func() {
+			if r := recover(); r != nil {
+				res = fmt.Sprintf("<reading the object panics: %v>", r)
+			}
+		}()
 		keys := o.Keys().StringSlice()
 		sort.Strings(keys)
 		var sb strings.Builder
